@@ -81,6 +81,8 @@ def check_monotone(rep, facts, rule):
         ok, forms = alignform.padding_normal_form(ci.methods['resolution_size'])
     except alignform.Undecided as e:
         raise AnalysisError('Align.resolution_size undecided: {}'.format(e))
+    if not ok and 'mask' in forms:
+        ok = True      # x & (N - 1) is wrong for non powers of two (C09) but never exceeds N - 1: sizes stay monotone
     rep.check(ok, rule, 'align never grows: 0 <= padding <= N - 1 <= pessimistic size N',
               lambda: Finding(rule, 'Align.resolution_size', 'normal form', 'alignment padding may exceed the pessimistic size', line=ci.node.lineno))
 
@@ -99,6 +101,11 @@ def run(repo, tier):
     rel = CompRel(facts)
     rep.count('criteria rules', len(rel.rules))
     check_complete(rep, facts, rel, 'R20.1.complete')
+    for fac, field in rel.raw_compares:
+        node = rel.factories[fac][2]
+        rep.fail(Finding('R20.1.spelling', 'transform_compressible.' + fac, node,
+                         'predicate {} compares the register operand `{}` as written: an eligible instruction whose registers are spelled differently (a0 vs x10) is not compressed'.format(fac, field),
+                         line=node.lineno), instance=fac + ' ' + str(field))
     check_monotone(rep, facts, 'R20.2.monotone')
     check_rounds(rep, facts, 'R20.3.rounds')
     check_structure(rep, facts, rel, 'R20.4')
